@@ -424,6 +424,11 @@ class Gen:
                         # payload bytes are arbitrary bytes: leading zero bytes (vector tables, padding), a leading 0x0? nibble, "0x"-like text
                         self.features.add("payload:hex-leading-zeros")
                         raw = self.r.choice([b"\x00", b"\x00\x00", b"\x00" * 4, b"\x0a", b"\x00\x78", b"\x0f\x00"]) + self.nbytes(self.r.randrange(0, 12))
+                    elif self.p(0.12):
+                        # payload bytes that begin like a SUIT envelope (CBOR tag 107) without being one: still a payload (C03-o)
+                        self.features.add("payload:envelope-like")
+                        # (never tag 107 of a *map*: the tool takes that for a dependency envelope, and so does the recursive predicate)
+                        raw = b"\xd8\x6b" + self.r.choice([b"", b"\x00", b"\x40", b"\x80", b"\xf6", bytes([self.r.choice([0x01, 0x18, 0x41, 0x62, 0x81, 0xd8, 0xff])]) + self.nbytes(self.r.randrange(1, 20))])
                     pl[name] = raw.hex().upper() if self.p(0.5) else raw.hex()
                 else:
                     content = self.safe_bytes(0, 80) if not self.big or not self.p(0.1) else bytes([0xFF]) + self.nbytes(self.r.choice([65535, 65536]))
@@ -445,6 +450,14 @@ class Gen:
             if self.p(0.3):
                 head.reverse()
             members = head + tail
+        elif self.p(0.2):
+            # the order of the envelope map is the order of the keys in the description, which is free: sorted maps (JSON written with
+            # sort_keys), the manifest last, severed members before the manifest that refers to them (C01-o)
+            self.features.add("order:free")
+            if self.p(0.5):
+                members.sort(key=lambda kv: kv[0])
+            else:
+                self.r.shuffle(members)
         e = dict(members)
         return {"SUIT_Envelope_Tagged": e}
 
